@@ -313,6 +313,32 @@ def convertFull (r : Row) (e : E) (c : Call) (a : ConvArg) : E :=
   | true, .gerr g => g
   | _, _ => execRow r e c
 
+/-! ## utils.go: `ErrUnknown`, `ExtMsgf` -/
+
+/-- `var ErrUnknown = FactoryOf(&GError{Name: "ErrUnknown", Message: "tried to operate on non gerror.Error"})` -/
+def errUnknown : E :=
+  { name := "ErrUnknown".toList, msg := "tried to operate on non gerror.Error".toList, src := [], dtag := [], stack := [] }
+
+/-- the frame of `ExtMsgf` itself, as the runtime names it -/
+def extMsgfFrame : Str := "github.com/drshriveer/gtools/gerror.ExtMsgf".toList
+
+/-- the call stack seen by the factory method `ExtMsgf` calls: `ExtMsgf`'s frame on top of the
+stack of whoever called `ExtMsgf` -/
+def extMsgfFrames (fr : Frames) : Frames := ⟨extMsgfFrame, fr.toList⟩
+
+/-- what `ExtMsgf` is handed: a value implementing `Factory` (every gerror error does), or anything
+else (foreign errors, `nil`) -/
+inductive ExtArg where
+  | gerr (e : E) | foreign
+
+/-- `ExtMsgf(err, format, args...)`: `gerr, ok := err.(Factory); if !ok { return ErrUnknown.Convert(err) };
+return gerr.Msg(format, args...)`.  `formatted` is `fmt.Sprintf(format, args...)`, `errText` is
+`fmt.Sprintf("%+v", err)`; `fr` is the stack of `ExtMsgf`'s caller. -/
+def extMsgf (a : ExtArg) (format formatted errText : Str) (fr : Frames) : E :=
+  match a with
+  | .gerr e => step e { m := .msg, params := [format], formatted := formatted, frames := extMsgfFrames fr }
+  | .foreign => step errUnknown { m := .convert, params := [], formatted := errText, frames := extMsgfFrames fr }
+
 /-! ## what the methods promise, read off a call (used by the specs) -/
 
 def Call.srcArg (c : Call) : Str := evalArg (wiring c.m).src c
@@ -412,6 +438,15 @@ def errorTail (e : E) : Str := "Message: ".toList ++ e.msg
 
 def baseError (e : E) : Str := errorHead e ++ errorTail e
 
+/-- the end of both `Error()` methods: `if len(stack) > 0 { result += "\n" + stack.String() }`;
+`stack.String()` (file names, line numbers) is a parameter -/
+def errorStackPart (e : E) (stackText : Str) : Str :=
+  if e.stack.length > 0 then ['\n'] ++ stackText else []
+
+/-- `(*GError).Error()` in full: name, detail tag, source — each only when non-empty, each followed
+by `", "` — then the message (always), then the stack text when there is a stack -/
+def errorFull (e : E) (stackText : Str) : Str := errorHead e ++ errorTail e ++ errorStackPart e stackText
+
 /-- one `result += fmt.Sprintf("<PrintAs>: %v", e.<Name>) + separator` -/
 def printField (x : X) (f : FieldDef) : Str := f.printAs ++ ": ".toList ++ x.val f.name ++ ", ".toList
 
@@ -419,6 +454,10 @@ def printField (x : X) (f : FieldDef) : Str := f.printAs ++ ": ".toList ++ x.val
 message — in the order of the template -/
 def extError (d : ExtDef) (x : X) : Str :=
   errorHead x.base ++ (fieldsToPrint d).flatMap (printField x) ++ errorTail x.base
+
+/-- the generated `Error()` in full -/
+def extErrorFull (d : ExtDef) (x : X) (stackText : Str) : Str :=
+  extError d x ++ errorStackPart x.base stackText
 
 /-! ## heap of error objects (immutability / write sets) -/
 
